@@ -112,7 +112,7 @@ def build(case):
         kw["vdims"] = list(case["vdims"])
     elif case["labels"] == "absent":
         kw["vdims"] = []
-    f = df.Field(mesh, nvdim=case["k"], value=arr, dtype=dt, unit=case["unit"], valid=gen.make_mask(case["mask"], n), **kw)
+    f = df.Field(mesh, nvdim=case["k"], value=np.array(arr, copy=True), dtype=dt, unit=case["unit"], valid=gen.make_mask(case["mask"], n), **kw)
     return mesh, f, arr
 
 
